@@ -176,4 +176,50 @@ class FromLexical(Suite):
         return msg.split(":")[0] + ":" + LEXICALS[case["d"]][0]
 
 
-SUITES = {"from-python": FromPython(), "from-lexical": FromLexical()}
+class EqAcrossDatatypes(Suite):
+    """eq() agrees with Python equality of the mapped values, also across numeric datatypes and for zero"""
+    chunk = 50
+
+    def bound(self, tier):
+        return ("all ordered pairs of 40 numeric literals: values 0, -0.0, 1, -1, 0.5, 2**31, 10**20 as int, float, Decimal "
+                "and as lexical forms typed xsd:int / long / short / byte / integer / decimal / double / float / "
+                "nonNegativeInteger: a.eq(b) == (a.toPython() == b.toPython())")
+
+    def lits(self):
+        from rdflib import Literal, XSD
+        from decimal import Decimal
+        out = []
+        for v in (0, 1, -1, 2 ** 31, 10 ** 20):
+            out += [Literal(v), Literal(float(v)), Literal(Decimal(v))]
+            for dt_ in (XSD.int, XSD.long, XSD.short, XSD.byte, XSD.integer, XSD.decimal, XSD.double, XSD.float,
+                        XSD.nonNegativeInteger):
+                l = Literal(str(v), datatype=dt_)
+                if not l.ill_typed and l.value is not None:
+                    out.append(l)
+        out += [Literal(-0.0), Literal(0.5), Literal(Decimal("0.5")), Literal("0.50", datatype=XSD.decimal)]
+        return out
+
+    def enumerate(self, tier):
+        n = len(self.lits())
+        for i in range(n):
+            for j in range(n):
+                yield {"i": i, "j": j}
+
+    def check(self, case):
+        L = self.lits()
+        a, b = L[case["i"]], L[case["j"]]
+        try:
+            got = a.eq(b)
+        except TypeError:
+            return None          # eq() declares the pair incomparable: not a claim about equality
+        want = a.toPython() == b.toPython()
+        if got != want:
+            return (f"eq-vs-python: {a!r}.eq({b!r}) is {got} but the Python values {a.toPython()!r} and {b.toPython()!r} "
+                    f"compare {want}")
+        return None
+
+    def classify(self, case, msg):
+        return msg.split(":")[0]
+
+
+SUITES = {"from-python": FromPython(), "from-lexical": FromLexical(), "eq-across-datatypes": EqAcrossDatatypes()}
